@@ -96,7 +96,8 @@ def strategy(tier):
                 "gmode": gmode, "G": G, "c": [draw(cval) for _ in range(dim)],
                 "xmode": draw(st.sampled_from(["rand", "ones", "zeros", "neg"])),
                 "avg_ndof": draw(st.integers(1, 3)),
-                "op": {"ndof": draw(st.integers(1, 3)), "lead": lead, "pernode": draw(st.booleans())},
+                "op": {"ndof": draw(st.integers(1, 3)), "lead": lead, "pernode": draw(st.booleans()),
+                       "cplx": draw(st.sampled_from(["none", "none", "data", "matrix"]))},
                 "payload_seed": draw(st.integers(0, 2 ** 31 - 1))}
     return case()
 
@@ -372,17 +373,26 @@ def _check_operations(ctx, case, rng, labels):
     A = rng.standard_normal(lead + (m,))
     uu = rng.standard_normal(g.nnodes * ndof)
     xx = rng.standard_normal(lead + (g.nel,))
+    cplx = op.get("cplx", "none")          # complex nodal / element data, or a complex operator matrix
+    if cplx == "data":
+        uu = uu + 1j * rng.standard_normal(uu.shape)
+        xx = xx + 1j * rng.standard_normal(xx.shape)
+    elif cplx == "matrix":
+        A = A + 1j * rng.standard_normal(A.shape)
+    dt = float if cplx == "none" else complex
+    if cplx != "none":
+        labels.append("op_complex_" + cplx)
     dofs = [g.dofs(e, ndof) for e in range(g.nel)]
 
     # ---- ElementOperation, per-dof matrix: y[..., e] = A . u[dofs_e] ------------------------------------------------
     y = guarded("ElementOperation", lambda: np.asarray(_run(pym, pym.ElementOperation, uu, domain=dom, element_matrix=A.copy())))
     y_ok = False
     if y is not None:
-        want = np.zeros(lead + (g.nel,))
+        want = np.zeros(lead + (g.nel,), dtype=dt)
         for e in range(g.nel):
             ue = uu[dofs[e]]
             for idx in itertools.product(*[range(s) for s in lead]):
-                want[idx + (e,)] = float(np.sum(A[idx] * ue))
+                want[idx + (e,)] = np.sum(A[idx] * ue)
         if y.shape != want.shape:
             bad("elementop:shape", f"ElementOperation output shape {y.shape}, expected {want.shape}")
         elif float(np.max(np.abs(y - want))) > TOL * max(float(np.max(np.abs(want))), m * float(np.max(np.abs(A))) * float(np.max(np.abs(uu)))):
@@ -394,16 +404,18 @@ def _check_operations(ctx, case, rng, labels):
     # ---- ElementOperation, per-node matrix repeated for every dof: y[d, ..., e] = An . u[conn_e*ndof + d] -----------
     if pernode:
         An = rng.standard_normal(lead + (g.en,))
+        if cplx == "matrix":
+            An = An + 1j * rng.standard_normal(An.shape)
         yn = guarded("ElementOperation", lambda: np.asarray(_run(pym, pym.ElementOperation, uu, domain=dom, element_matrix=An.copy())))
         if yn is not None:
             shp = lead + (g.nel,) if ndof == 1 else (ndof,) + lead + (g.nel,)
-            want = np.zeros(shp)
+            want = np.zeros(shp, dtype=dt)
             for e in range(g.nel):
                 for dd in range(ndof):
                     ue = uu[g.conn[e] * ndof + dd]
                     for idx in itertools.product(*[range(s) for s in lead]):
                         tgt = idx + (e,) if ndof == 1 else (dd,) + idx + (e,)
-                        want[tgt] = float(np.sum(An[idx] * ue))
+                        want[tgt] = np.sum(An[idx] * ue)
             if yn.shape != want.shape:
                 bad("elementop:pernode_shape", f"per-node ElementOperation output shape {yn.shape}, expected {want.shape}")
             elif float(np.max(np.abs(yn - want))) > TOL * g.en * float(np.max(np.abs(An))) * float(np.max(np.abs(uu))):
@@ -414,7 +426,7 @@ def _check_operations(ctx, case, rng, labels):
     f = guarded("NodalOperation", lambda: np.asarray(_run(pym, pym.NodalOperation, xx, domain=dom, element_matrix=A.copy())))
     if f is None:
         return
-    want = np.zeros(g.nnodes * ndof)
+    want = np.zeros(g.nnodes * ndof, dtype=dt)
     for e in range(g.nel):
         for k in range(m):
             acc = 0.0
@@ -429,7 +441,7 @@ def _check_operations(ctx, case, rng, labels):
         bad("nodalop:values", f"NodalOperation differs from the scatter of A x_e (lead={lead}, ndof={ndof}): max abs err "
                               f"{np.max(np.abs(f - want)):.3e}")
     if y is not None and y.shape == xx.shape:
-        lhs, rhs = float(f @ uu), float(np.sum(xx * y))
+        lhs, rhs = complex(f @ uu), complex(np.sum(xx * y))     # bilinear pairing (no conjugation): exact transposition
         sc2 = float(np.abs(f) @ np.abs(uu)) + float(np.sum(np.abs(xx * y)))
         if abs(lhs - rhs) > TOL * max(sc2, 1e-300):
             bad("nodalop:transpose", f"<NodalOperation(x), u> = {lhs!r} but <x, ElementOperation(u)> = {rhs!r} "
